@@ -105,6 +105,8 @@ class Ctx:
              max_paths=200000, default_kwargs=False):
         if resolver is None and max_depth == 0 and func.qn == 'pymodbus.transaction.ModbusTransactionManager.execute':
             resolver, max_depth = self.tx_helper_resolver(), 2
+        if resolver is None and max_depth == 0:
+            resolver, max_depth = self.receiver_helper_resolver(), 1
         pe = PathEnum(self.idx, resolver or SelfResolver(self.idx), may_raise, max_depth=max_depth,
                       hier=self.hier, max_paths=max_paths)
         pe.consteval = self._consteval_hook
@@ -121,6 +123,20 @@ class Ctx:
 
     TX_MODELLED = ('_transact', '_send', '_recv', '_calculate_response_length', '_calculate_exception_length', 'getNextTID', 'addTransaction',
                    'getTransaction', 'delTransaction', 'reset', 'execute')
+
+    def receiver_helper_resolver(self):
+        """`_helper(self, ...)` -- a private function of the same module that is handed the receiver -- is part of the method that
+        calls it (a body shared by sibling classes, factored out): even an analysis that inlines nothing else follows it.  The
+        helper's parameter stands for `self` in everything the rules look at (substituted expressions)."""
+        def res(call, fr, path):
+            f = call.func
+            if isinstance(f, ast.Name) and f.id.startswith('_') and not f.id.startswith('__') and getattr(fr, 'func', None) is not None and fr.fid == 0 \
+                    and any(isinstance(a, ast.Name) and a.id == 'self' for a in call.args):
+                r = self.idx.lookup(fr.func.mod, f.id)
+                if r and r[0] == 'func' and r[1].mod is fr.func.mod and not r[1].is_async and not r[1].node.decorator_list:
+                    return (r[1], None, {})
+            return None
+        return res
 
     def tx_helper_resolver(self):
         """private helper methods of the transaction manager that are not modelled on their own (a prologue / epilogue factored
@@ -142,6 +158,8 @@ class Ctx:
         stopping at the statements in `stop`"""
         if resolver is None and max_depth == 0 and func.qn == 'pymodbus.transaction.ModbusTransactionManager.execute':
             resolver, max_depth = self.tx_helper_resolver(), 2
+        if resolver is None and max_depth == 0:
+            resolver, max_depth = self.receiver_helper_resolver(), 1
         pe = PathEnum(self.idx, resolver or SelfResolver(self.idx), may_raise, max_depth=max_depth, hier=self.hier)
         pe.consteval = self._consteval_hook
         pe.stop_nodes = set(stop)
@@ -179,7 +197,7 @@ def annotate(path, heap=True, versioned=()):
         if ev.kind == 'cond':
             ev._sub = st.expr(ev.node, ev.frame, heap=heap, inline=True)
         elif ev.kind == 'call':
-            ev._sub = st.expr(ev.node, ev.frame, heap=heap)
+            ev._sub = _expand_star_kwargs(st.expr(ev.node, ev.frame, heap=heap))
         elif ev.kind == 'return' and ev.a is not None and ev.a is not _UNKNOWN:
             ev._sub = st.expr(ev.a, ev.b or ev.frame, heap=heap, inline=True)
         elif ev.kind == 'assign':
@@ -191,6 +209,27 @@ def annotate(path, heap=True, versioned=()):
             else:
                 ev._sub = st.expr(ret, rfr, heap=heap, inline=True) if (ret is not None and ret is not _UNKNOWN) else None
     return replay(path, on, heap=heap, versioned=versioned)
+
+
+def _expand_star_kwargs(call):
+    """f(a, **dict(k=v)) / f(a, **{'k': v}) is f(a, k=v): a keyword dictionary whose keys are known is spelt out"""
+    if not isinstance(call, ast.Call) or not any(k.arg is None for k in call.keywords):
+        return call
+    kws, changed = [], False
+    for k in call.keywords:
+        v = k.value
+        if k.arg is None and isinstance(v, ast.Call) and isinstance(v.func, ast.Name) and v.func.id == 'dict' and not v.args and v.keywords and all(x.arg for x in v.keywords):
+            kws += [ast.keyword(arg=x.arg, value=x.value) for x in v.keywords]
+            changed = True
+        elif k.arg is None and isinstance(v, ast.Dict) and v.keys and all(isinstance(x, ast.Constant) and isinstance(x.value, str) for x in v.keys):
+            kws += [ast.keyword(arg=x.value, value=y) for x, y in zip(v.keys, v.values)]
+            changed = True
+        else:
+            kws.append(k)
+    if not changed:
+        return call
+    c2 = ast.Call(func=call.func, args=call.args, keywords=kws)
+    return ast.fix_missing_locations(ast.copy_location(c2, call))
 
 
 def ret_expr(path):
